@@ -248,6 +248,12 @@ func TestC02_ReplicasAgree(t *testing.T) {
 	for _, a := range accts {
 		cands = append(cands, a.Addr)
 	}
+	// addresses nobody can sign for: they must be witnessed on no replica
+	var allFF common.Address
+	for i := range allFF {
+		allFF[i] = 0xff
+	}
+	cands = append(cands, common.ADDRESS_EMPTY, allFF, nutils.OntContractAddress, nutils.GovernanceContractAddress)
 	evm := []*fix.ZooKey{fix.Key(fix.KEth, 1), fix.Key(fix.KEth, 2)}
 	signer := ethtypes.NewEIP155Signer(big.NewInt(c02ChainID))
 	worker := iso.New("c02-replica")
